@@ -433,3 +433,133 @@ def _frozenset_literal(cls, name):
                     out.add(n.value)
             return out
     return None
+
+
+# --------------------------------------------------------------------------- C05
+PROTOCOL_NAMES = {"__liquid__", "__html__", "__getitem_async__", "__getitem__", "with_context", "with_environment", "filter_async",
+                  "validate", "force_liquid_default", "get_int_max_str_digits"}
+FORBIDDEN_CALLS = {"vars", "eval", "exec", "compile", "__import__", "globals", "locals", "dir", "delattr", "setattr"}
+FORBIDDEN_ATTRS = {"__dict__", "__globals__", "__subclasses__", "__mro__", "__bases__", "__getattribute__", "__getattr__", "__builtins__",
+                   "__code__", "__closure__", "__func__", "__self__", "__wrapped__", "format_map", "attrgetter", "methodcaller", "getmembers"}
+DATA_NAMES = {"obj", "left", "val", "value", "item", "itm", "sequence", "key", "right", "arg"}
+
+
+@register("C05")
+def c05_sites(repo_root, tier):
+    repo = Repo(repo_root)
+    obs = []
+    n_sites = 0
+    for m in repo.all_modules():
+        for qual, cls, fn, parent in function_defs(m):
+            for n in own_nodes(fn):
+                # ---- reflective built-ins
+                if isinstance(n, ast.Call) and isinstance(n.func, ast.Name) and n.func.id in ("getattr", "hasattr"):
+                    n_sites += 1
+                    oid = f"{m.name}:{qual}/site.{n.func.id}@{_ordinal(fn, n)}"
+                    name = n.args[1] if len(n.args) > 1 else None
+                    recv = n.args[0] if n.args else None
+                    if isinstance(name, ast.Constant) and isinstance(name.value, str):
+                        ok = name.value in PROTOCOL_NAMES
+                        _ob(obs, oid, ok, f"{n.func.id}(.., {name.value!r}): " + ("documented protocol name" if ok else "not a protocol name"))
+                    else:
+                        # by-name access: only `self`, under a dominating membership test in a literal key set
+                        ok, why = _guarded_self_getattr(repo, m, cls, fn, n)
+                        _ob(obs, oid, ok, why)
+                elif isinstance(n, ast.Call) and isinstance(n.func, ast.Name) and n.func.id in FORBIDDEN_CALLS:
+                    n_sites += 1
+                    _ob(obs, f"{m.name}:{qual}/site.{n.func.id}@{_ordinal(fn, n)}", False, f"call of {n.func.id}() in render/parse code")
+                elif isinstance(n, ast.Attribute) and n.attr in FORBIDDEN_ATTRS:
+                    n_sites += 1
+                    ok = ast.unparse(n).startswith("object.__getattribute__(") or ast.unparse(n) == "object.__getattribute__"
+                    _ob(obs, f"{m.name}:{qual}/site.attr.{n.attr}@{n.lineno}", ok, f"{ast.unparse(n)}: " + ("object.__getattribute__ on self inside StrictUndefined" if ok else "reflective attribute"))
+                elif isinstance(n, ast.Attribute) and n.attr == "format" and isinstance(getattr(n, "ctx", None), ast.Load):
+                    # str.format would let a format string reach attributes ({0.__class__}); only literal receivers are fine
+                    n_sites += 1
+                    ok = isinstance(n.value, ast.Constant) or m.name.endswith("babel")
+                    _ob(obs, f"{m.name}:{qual}/site.str-format@{n.lineno}", ok, f"{ast.unparse(n)}: " + ("literal template / babel pattern API" if ok else "str.format on a non-literal"))
+    _ob(obs, "liquid2/site.reflection.count", n_sites >= 20, f"{n_sites} reflective sites classified")
+    # ---- the item getters touch data only through the documented protocol
+    cm = repo.module("liquid2.context")
+    allowed_attr = {"items", "__getitem_async__", "__liquid__"}
+    allowed_call = {"isinstance", "hasattr", "len", "next", "iter", "_get_item", "islice", "itertools.islice"}
+    for name in ("RenderContext.get_item", "RenderContext.get_item_async"):
+        fn = cm.find(name) if cm else None
+        bad = []
+        if fn is None:
+            bad.append("not found")
+        else:
+            for n in ast.walk(fn):
+                if isinstance(n, ast.Attribute) and isinstance(n.value, ast.Name) and n.value.id in ("obj", "key") and n.attr not in allowed_attr:
+                    bad.append(f"{ast.unparse(n)}@{n.lineno}")
+                if isinstance(n, ast.Call) and any(isinstance(a, ast.Name) and a.id in ("obj", "key") for a in n.args):
+                    fnm = ast.unparse(n.func)
+                    if fnm not in allowed_call and not fnm.startswith("obj."):
+                        bad.append(f"{fnm}(obj)@{n.lineno}")
+        _ob(obs, f"liquid2.context:{name}/site.protocol-only", not bad,
+            "data is reached only through obj[key], len, iteration of items(), isinstance and the __liquid__/__getitem_async__ hooks" if not bad else f"other access: {bad[:4]}")
+    # ---- filter-side getters use operator.getitem / subscripts only
+    for m in repo.all_modules():
+        if not _is_filter_mod(m.name):
+            continue
+        for qual, cls, fn, parent in function_defs(m):
+            if not fn.name.startswith("_getitem") and fn.name not in ("_getitem",):
+                continue
+            bad = []
+            params = params_of(fn)
+            for n in ast.walk(fn):
+                if isinstance(n, ast.Attribute) and isinstance(n.value, ast.Name) and n.value.id in params and n.attr not in ("__getitem__",):
+                    bad.append(f"{ast.unparse(n)}@{n.lineno}")
+                if isinstance(n, ast.Call) and isinstance(n.func, ast.Name) and n.func.id in ("getattr", "vars"):
+                    bad.append(f"{n.func.id}@{n.lineno}")
+            _ob(obs, f"{m.name}:{qual}/site.getitem-only", not bad, "item getter uses obj[key] / operator.getitem only" if not bad else f"{bad[:4]}")
+    # ---- translation messages are interpolated printf-style (no attribute access in the format language)
+    for modname, qual in (("liquid2.builtin.filters.translate", "BaseTranslateFilter.format_message"), ("liquid2.builtin.tags.translate_tag", "TranslateNode._format_message")):
+        m = repo.module(modname)
+        fn = m.find(qual) if m else None
+        ok = False
+        if fn is not None:
+            mods = [n for n in ast.walk(fn) if isinstance(n, ast.BinOp) and isinstance(n.op, ast.Mod)]
+            fmts = [n for n in ast.walk(fn) if isinstance(n, ast.Attribute) and n.attr in ("format", "format_map", "substitute")]
+            ok = bool(mods) and not fmts
+        _ob(obs, f"{modname}:{qual}/site.printf-only", ok, "message % vars (printf-style): the format language has no attribute or index access")
+    return {"obligations": obs, "samples": [{"obligation": o["oid"], "backend": "site", "note": o["note"]} for o in obs[:3]],
+            "trusted": ["site enumeration: getattr/hasattr/setattr/delattr/vars/eval/exec/compile/__import__ calls, reflective dunder attributes, str.format"],
+            "functions": [], "assumptions": ["C-level behaviour of obj[key] / len / iter on user classes is the user's own code"]}
+
+
+def _is_filter_mod(name):
+    return name.startswith("liquid2.builtin.filters") or name.startswith("liquid2.shopify.filters")
+
+
+def _guarded_self_getattr(repo, m, cls, fn, call):
+    """`if key in self._keys: return getattr(self, key)` with `_keys` a literal frozenset of the class's own public names."""
+    if cls is None or len(call.args) != 2:
+        return False, "by-name getattr outside a class"
+    recv, name = call.args
+    if not (isinstance(recv, ast.Name) and recv.id == "self" and isinstance(name, ast.Name)):
+        return False, f"getattr({ast.unparse(recv)}, {ast.unparse(name)}): receiver is not `self` or name is computed"
+    # dominating test
+    guard = None
+    for n in ast.walk(fn):
+        if isinstance(n, ast.If) and any(x is call for x in ast.walk(ast.Module(body=n.body, type_ignores=[]))):
+            t = n.test
+            if isinstance(t, ast.Compare) and len(t.ops) == 1 and isinstance(t.ops[0], ast.In) and isinstance(t.left, ast.Name) and t.left.id == name.id:
+                guard = ast.unparse(t.comparators[0])
+    if guard is None or not guard.startswith("self."):
+        return False, f"getattr(self, {name.id}) is not dominated by `{name.id} in self.<keys>`"
+    c = m.classes.get(cls)
+    keys = _frozenset_literal(c, guard.split(".", 1)[1]) if c else None
+    if not keys:
+        return False, f"{guard} is not a literal key set"
+    # every key must be a plain public name defined by the class (slot, property or method)
+    defined = set()
+    for st in c.body:
+        if isinstance(st, (ast.FunctionDef, ast.AsyncFunctionDef)):
+            defined.add(st.name)
+        if isinstance(st, ast.Assign) and any(isinstance(t, ast.Name) and t.id == "__slots__" for t in st.targets):
+            for x in ast.walk(st.value):
+                if isinstance(x, ast.Constant) and isinstance(x.value, str):
+                    defined.add(x.value)
+    bad = [k for k in keys if k.startswith("_") or k not in defined]
+    return (not bad), (f"getattr(self, {name.id}) guarded by `{name.id} in {guard}`; {guard} = {sorted(keys)} are the class's own public helpers"
+                       if not bad else f"{guard} contains {bad}: not public helpers of {cls}")
